@@ -179,9 +179,9 @@ static const char LONGNAME2[] = "another-long-name-for-sub-items-0123456789";
 // mirror of the private header in front of buffers made by _mpt_buffer_alloc (64 bytes: refcount, psize, flags, pad, buffer)
 static uintptr_t alloc_refs(const mpt::buffer *b) { return *(const uintptr_t *) ((const char *) b - 32); }
 
-enum Code { SET, BSET, INS, CUT, RESERVE, DETACH, CLONE, RELEASE, REDUCE, NEWBUF, TRIM, SKIP, COPY, MOVE, SETLEN, APPEND, ARM, ARMSLOT, SUBBUF, SLICE, NCODES };
+enum Code { SET, BSET, INS, CUT, RESERVE, DETACH, CLONE, RELEASE, REDUCE, NEWBUF, TRIM, SKIP, COPY, MOVE, SETLEN, APPEND, ARM, ARMSLOT, SUBBUF, SLICE, SETOWN, NCODES };
 static const char *code_name[] = { "array_set", "buffer_set", "array_insert", "buffer_cut", "array_reserve", "detach", "array_clone", "release", "array_reduce", "new_buffer",
-                                   "buffer::trim", "buffer::skip", "buffer::copy", "buffer::move", "content::set_length", "buffer::append", "arm-ctor-failure", "set-handler", "add-subitems", "array_slice" };
+                                   "buffer::trim", "buffer::skip", "buffer::copy", "buffer::move", "content::set_length", "buffer::append", "arm-ctor-failure", "set-handler", "add-subitems", "array_slice", "array_set" };
 enum Pos { P0, P1, PEND, PPAST, PLAST, PBEFORE };     // 0, 1, N, N+1, -1 (relative to end), N-1
 static const char *pos_name[] = { "0", "1", "end", "end+1", "-1", "end-1" };
 struct OpDef { int code, h, a, b, c; };
@@ -214,6 +214,8 @@ struct BSys {
 		for (int h = 0; h < 2; ++h) {
 			for (int p : {P0, P1, PEND, PPAST, PLAST}) for (int c = 1; c <= 2; ++c) for (int d = 1; d >= 0; --d) ops.push_back(OpDef{SET, h, p, c, d});
 			for (int p : {P0, PEND}) ops.push_back(OpDef{BSET, h, p, 1, 1});
+			// source elements inside the target array: shift down (overlapping), append a copy of the first, self assignment, disjoint
+			if (kind != K_FINI) for (int shape = 0; shape < 4; ++shape) ops.push_back(OpDef{SETOWN, h, shape, 0, 0});
 			for (int p : {P0, P1, PEND, PPAST}) for (int c = 1; c <= 2; ++c) ops.push_back(OpDef{INS, h, p, c, 0});
 			for (auto pc : {std::make_pair(P0, 1), std::make_pair(P1, 1), std::make_pair(PBEFORE, 1), std::make_pair(P0, 2), std::make_pair(P1, 0), std::make_pair(P0, 0), std::make_pair(PEND, 1)}) ops.push_back(OpDef{CUT, h, pc.first, pc.second, 0});
 			for (int n : {0, 1, 2}) for (int t = 0; t < (kind == K_SERIAL && full ? 5 : 3); ++t) ops.push_back(OpDef{RESERVE, h, n, t, 0});     // n: 0 elements / current / capacity+1 ; t: same / other / untyped / compatible (same finaliser+size) / same finaliser, other size
@@ -239,6 +241,7 @@ struct BSys {
 		switch (o.code) {
 		case SET: return fmt("h%d.array_set(off=%s,n=%d,%s)", o.h, pos_name[o.a], o.b, o.c ? "data" : "NULL");
 		case BSET: return fmt("h%d.buffer_set(compatible traits,pos=%s,n=1)", o.h, pos_name[o.a]);
+		case SETOWN: { static const char *sn[] = { "off=0,n=2,data=&own[1]", "off=end,n=1,data=&own[0]", "off=0,n=1,data=&own[0]", "off=1,n=1,data=&own[0]" }; return fmt("h%d.array_set(%s)", o.h, sn[o.a]); }
 		case INS: return fmt("h%d.array_insert(pos=%s,n=%d)+construct", o.h, pos_name[o.a], o.b);
 		case CUT: return fmt("h%d.buffer_cut(off=%s,n=%d)", o.h, pos_name[o.a], o.b);
 		case RESERVE: { static const char *tn[] = { "same traits", "other traits", "untyped", "compatible traits", "traits with the same finaliser but twice the size" };
@@ -571,6 +574,11 @@ struct BSys {
 		switch (o.code) {
 		case SET: { long p = pos < 0 ? n + pos : pos; if (p < 0 && b) return false; if (p + o.b > maxe) return false; ac = poscls(p, o.b) + (o.c ? "" : ",default"); break; }
 		case BSET: if (!b || !KT2 || b->_content_traits != KT || (pos + 1) * ks > b->_size) return false; ac = poscls(pos, 1) + ",compatible-traits"; break;
+		case SETOWN: {
+			static const long need[] = { 3, 1, 1, 2 };
+			if (!b || b->_content_traits != KT || n < need[o.a] || (o.a == 1 && n + 1 > maxe)) return false;
+			ac = o.a == 0 ? "own-source,overlapping" : (o.a == 1 ? "own-source,append" : (o.a == 2 ? "own-source,self" : "own-source,disjoint"));
+			break; }
 		case INS: if (std::max(pos, n) + o.b > maxe) return false; ac = pos > n ? "past-end" : (pos == n ? "append" : "inside"); break;
 		case CUT: if (!b || pos < 0) return false; ac = o.b == 0 ? "truncate" : (pos + o.b > n ? "out-of-range" : (pos + o.b == n ? "inside,to-end" : "inside,tail-kept")); break;
 		case RESERVE: if (o.a == 2 && b && b->_size > 64) return false; ac = std::string(o.b == 0 ? "same-type" : (o.b == 1 ? "other-type" : (o.b == 2 ? "untyped" : (o.b == 3 ? "compatible-type" : "same-finaliser-other-size")))) + (o.a == 2 ? ",grow" : (o.a == 1 ? ",fit" : ",zero")); break;
@@ -608,6 +616,12 @@ struct BSys {
 			void *ret = LIB(mpt::mpt_array_set(H(h), KT, o.b * ks, data, pos));
 			refused = !ret;
 			if (data) settle_data(data, o.b, !refused);
+			break; }
+		case SETOWN: {
+			static const long soff[] = { 0, -2, 0, 1 }, scnt[] = { 2, 1, 1, 1 }, ssrc[] = { 1, 0, 0, 0 };
+			long off = soff[o.a] == -2 ? n : soff[o.a];
+			const uint8_t *own = (const uint8_t *) (b + 1) + ssrc[o.a] * ks;    // stays inside the used elements of the handle's own buffer
+			refused = !LIB(mpt::mpt_array_set(H(h), KT, scnt[o.a] * ks, own, off));
 			break; }
 		case SLICE: { long cnt = o.b < 0 ? n + 1 : o.b; refused = !LIB(mpt::mpt_array_slice(H(h), pos * ks, cnt * ks)); break; }
 		case BSET: refused = LIB(mpt::mpt_buffer_set(b, KT2, pos * ks, src, ks)) < 0; break;
@@ -690,6 +704,7 @@ struct BSys {
 		if (o.code == SET && !refused && g_destroyed && ac.find("tail-kept") != std::string::npos) r.count("overwrite in the middle, tail kept");
 		if (o.code == MOVE && ac.find("mismatch") != std::string::npos) { r.count("buffer::move between different element types (accepted or refused)"); r.count(refused ? "buffer::move between different element types: refused" : "buffer::move between different element types: accepted"); }
 		if (o.code == SLICE && g_failed) r.count("array_slice with a failing constructor");
+		if (o.code == SETOWN) { r.count("array_set with source elements inside the target array"); r.count(std::string("array_set with own source, ") + ac.substr(11) + (refused ? ": refused" : ": done")); }
 		if (o.code == RESERVE && o.b == 4 && !refused && n) r.count("array_reserve to a type with the same finaliser but another size on a non-empty buffer");
 		if (kind == K_FINI && was_shared && n && (refused || hb[h] != b) && (o.code == SET || o.code == INS || o.code == SLICE || o.code == DETACH)) {
 			r.count("finaliser-only elements: write through a shared handle (private copy made or refused)");
@@ -808,6 +823,7 @@ struct CSys {
 			if (mode == M_UARR || mode == M_TARR) {
 				for (int p : {P0, P1, PEND, PPAST, PLAST}) ops.push_back(OpDef{C_INS, h, p, 0, 0});
 				if (mode == M_TARR) for (int p : {P0, PEND, PPAST}) ops.push_back(OpDef{C_TINS, h, p, 0, 0});
+				if (mode == M_TARR) for (int p : {P0, PEND}) ops.push_back(OpDef{C_TINS, h, p, 1, 0});      // value = first element of the same array
 				for (int p : {P0, PLAST, PEND}) ops.push_back(OpDef{C_SET, h, p, 0, 0});
 				for (int n : {0, 1, 2, 3}) ops.push_back(OpDef{C_RESIZE, h, n, 0, 0});      // 0 / N-1 / N+1 / N+2
 			} else if (mode == M_ITEM) {
@@ -834,7 +850,7 @@ struct CSys {
 		static const char *tn[] = { "token A", "no instance", "token B" }, *idn[] = { "no name", "short name", "long name" }, *rs[] = { "0", "N-1", "N+1", "N+2" }, *rv[] = { "N+1", "capacity+1", "-1" };
 		switch (o.code) {
 		case C_INS: return is_ref() ? fmt("h%d.insert(%s,%s)", o.h, pos_name[o.a], tn[o.b]) : fmt("h%d.insert(%s)", o.h, pos_name[o.a]);
-		case C_TINS: return fmt("h%d.insert(%s,value)", o.h, pos_name[o.a]);
+		case C_TINS: return fmt("h%d.insert(%s,%s)", o.h, pos_name[o.a], o.b ? "own[0]" : "value");
 		case C_SET: return is_ref() ? fmt("h%d.set(%s,%s)", o.h, pos_name[o.a], tn[o.b]) : fmt("h%d.set(%s,value)", o.h, pos_name[o.a]);
 		case C_RESIZE: return fmt("h%d.resize(%s)", o.h, rs[o.a]);
 		case C_RESERVE: return fmt("h%d.reserve(%s)", o.h, rv[o.a]);
@@ -1053,7 +1069,8 @@ struct CSys {
 		long apos = pos < 0 ? n + pos : pos;
 		nontriv = false;
 		switch (o.code) {
-		case C_INS: case C_TINS: if (apos < 0 || std::max(apos, n) + 1 > maxe) return false; ac = apos > n ? "past-end" : (apos == n ? "append" : "inside"); break;
+		case C_INS: case C_TINS: if (apos < 0 || std::max(apos, n) + 1 > maxe) return false; if (o.code == C_TINS && o.b && n < 1) return false;
+			ac = std::string(apos > n ? "past-end" : (apos == n ? "append" : "inside")) + (o.code == C_TINS && o.b ? ",own-element" : ""); break;
 		case C_SET: ac = apos < 0 || apos >= n ? "out-of-range" : "inside"; break;
 		case C_RESIZE: { long len = o.a == 0 ? 0 : (o.a == 1 ? n - 1 : (o.a == 2 ? n + 1 : n + 2)); if (len < 0 || len > maxe) return false; ac = len < n ? "shrink" : (len == n ? "same" : "grow"); break; }
 		case C_RESERVE: if (o.a == 1 && (!real(b) || b->_size > 64)) return false; if (o.a == 0 && n + 1 > maxe) return false; ac = o.a == 0 ? "N+1" : (o.a == 1 ? "grow" : "negative"); break;
@@ -1088,7 +1105,9 @@ struct CSys {
 			else if (mode == M_TARR) refused = !LIB(ta[h]->mpt::unique_array<Elem>::insert(pos));
 			else { void *t = o.b ? 0 : tokptr(0); if (t) ++g_ct[0].refs; refused = !ref_insert(h, pos, t); if (refused && t) --g_ct[0].refs; }
 			break;
-		case C_TINS: { g_active = false; Elem *v = new Elem(); g_active = true; refused = !LIB(ta[h]->insert(pos, *v)); g_active = false; delete v; break; }
+		case C_TINS:
+			if (o.b) { refused = !LIB(ta[h]->insert(pos, *ta[h]->get(0))); if (counting) r.count("typed_array::insert(value) of an element of the same array"); break; }
+			{ g_active = false; Elem *v = new Elem(); g_active = true; refused = !LIB(ta[h]->insert(pos, *v)); g_active = false; delete v; break; }
 		case C_SET:
 			if (serial()) { g_active = false; Elem *v = new Elem(); g_active = true; refused = !(mode == M_UARR ? LIB(ua[h]->set(pos, *v)) : LIB(ta[h]->set(pos, *v))); g_active = false; delete v; }
 			else {
@@ -1281,6 +1300,7 @@ static void requires_(Run &r)
 	                       "elements destroyed by array_reserve", "elements destroyed by detach", "elements destroyed by buffer::copy", "elements destroyed by content::set_length",
 	                       "elements constructed by array_set", "elements constructed by array_insert", "elements constructed by detach", "elements constructed by buffer::copy",
 	                       "injected constructor failures", "shared buffer: elements copy-constructed into a private copy", "overwrite in the middle, tail kept", "gap default-constructed",
+	                       "array_set with source elements inside the target array", "typed_array::insert(value) of an element of the same array",
 	                       "buffer::move between different element types (accepted or refused)", "array_slice with a failing constructor",
 	                       "array_reserve to a type with the same finaliser but another size on a non-empty buffer",
 	                       "finaliser-only elements: write through a shared handle (private copy made or refused)",
